@@ -233,6 +233,13 @@ def search_failing_input(prop, prog_json, seeds_inputs, builtins, rng, budget=40
     for i, inp in enumerate(uniq[:budget]):
         for j, sc in enumerate(scripts[:3]):
             cases.append({'prog': d['name'], 'id': 's%ds%d' % (i, j), 'ctor': 0, 'ncalls': len(inp) + 3, 'input': inp, 'script': sc, 'clones': []})
+    # rule-set directed cases: enter rule set j through a scripted rule of the first rule set (every scripted action switches to j),
+    # then a shortest lexeme of each rule of j, then each seed word (e.g. the word that distinguishes a right-context automaton)
+    try:
+        for k, (inp, sc) in enumerate(directed_cases(d, ref, builtins, seeds_inputs)[:budget]):
+            cases.append({'prog': d['name'], 'id': 'd%d' % k, 'ctor': 0, 'ncalls': len(inp) + 3, 'input': inp, 'script': sc, 'clones': []})
+    except Exception as e:  # noqa
+        log('directed cases failed: %r' % (e,))
     status, traces, dumps = build_and_run([d], {d['name']: cases})
     if status[d['name']]['build'] != 'ok':
         return None
@@ -255,6 +262,51 @@ def search_failing_input(prop, prog_json, seeds_inputs, builtins, rng, budget=40
             return {'definition': corpus.lexer_text(d), 'def_json': prog_json, 'input': c['input'], 'script': c['script'], 'ctor': 0,
                     'what': 'implementation differs from the reference lexer', 'actual': a, 'expected': b}
     return None
+
+
+def shortest_word(core, alpha, max_len=6):
+    """a shortest word (over `alpha`, end-of-input excluded) in the language of a core regex, by breadth-first derivatives"""
+    from lexast import deriv, nullable, is_empty_lang
+    seen = {core}
+    frontier = [(core, [])]
+    for _ in range(max_len + 1):
+        nxt = []
+        for r, w in frontier:
+            if nullable(r):
+                return w
+            for c in alpha:
+                r2 = deriv(r, c)
+                if r2 not in seen and not is_empty_lang(r2):
+                    seen.add(r2)
+                    nxt.append((r2, w + [c]))
+        frontier = nxt[:400]
+    return None
+
+
+def directed_cases(d, ref, builtins, seeds):
+    alpha = sorted(set(gen_defs.def_alphabet(d, builtins, limit=10) + [c for w in seeds for c in w if c <= 0x10FFFF]))[:24]
+    words = {}
+    for rs, rules in ref.sets.items():
+        for (idx, kind, re_, ctx) in rules:
+            w = shortest_word(re_, alpha)
+            if w:
+                words[idx] = w
+    first = ref.init
+    entry_words = [words[idx] for (idx, kind, re_, ctx) in ref.sets[first] if kind in ('infallible', 'fallible') and idx in words][:3]
+    tails = [[]] + [[c for c in w if c <= 0x10FFFF] for w in seeds][:6]
+    out = []
+    order = ref.order or [first]
+    for j, rs in enumerate(order):
+        pres = [[]] if rs == first else entry_words
+        for (idx, kind, re_, ctx) in ref.sets[rs]:
+            if idx not in words:
+                continue
+            for pre in pres:
+                for t in tails:
+                    for dec in (8 * j + 3, 8 * j + 5):
+                        out.append((pre + words[idx] + t, [dec]))
+                        out.append((pre + words[idx] + t + words[idx] + t + [0x7A], [dec]))
+    return out
 
 
 def shrink_violation(prop, v, builtins, rounds=8):
